@@ -86,6 +86,21 @@ inductive Obs
   | ret (id : Nat)
 deriving DecidableEq, Repr
 
+/-- the peer an observation is sent to -/
+def peerOf : Obs → Option Nat
+  | .notify q _ _ _ _ => some q
+  | .ucNotify q => some q
+  | .reply q _ _ => some q
+  | .ret _ => none
+
+/-- What actually arrives when the connections of the peers in `failing` cannot be written to (their `Sender`
+    returns an error — e.g. no writer): `DeviceLocal.NotifySubscribers` ignores the error of one send and goes on
+    with the next subscription, so exactly the messages to failing peers are missing and nothing else changes. -/
+def delivered (failing : List Nat) (os : List Obs) : List Obs :=
+  os.filter fun o => match peerOf o with
+    | some q => !failing.contains q
+    | none => true
+
 /-- processReadDetailedDiscoveryData: entities in list order, features per entity in creation order -/
 def replyEnts (s : St) : List (Nat × Nat) := s.attached.map fun k => (k, (s.pool k).etype)
 def replyFeats (s : St) : List (Nat × Feat) := s.attached.flatMap fun k => (s.pool k).feats.map fun f => (k, f)
